@@ -113,7 +113,12 @@ mod verif_kani {
                 b't' => Some(0x09),
                 b'b' => Some(0x08),
                 b'f' => Some(0x0c),
-                _ => None, // other single characters: rejected by qmluic (never a wrong value)
+                // line terminators: a line continuation contributes NO character; digits 1-9 and bare x/u are not
+                // single-character escapes: all of these must be rejected
+                b'\n' | b'\r' | b'1'..=b'9' | b'x' | b'u' => None,
+                // any other character: ECMAScript's identity escape.  qmluic may reject it (None) or decode it to
+                // the character itself -- never to anything else
+                _ => return Err(()),
             });
         }
         let digits: &[u8] = if t.len() >= 3 && t[0] == b'u' && t[1] == b'{' && t[t.len() - 1] == b'}' {
@@ -135,8 +140,14 @@ mod verif_kani {
     fn check_escape(b: &[u8]) {
         if let Ok(s) = core::str::from_utf8(b) {
             let got = unescape_char(s).map(|c| c as u32);
-            if let Ok(e) = escape_oracle(b) {
-                assert!(got == e);
+            match escape_oracle(b) {
+                Ok(e) => assert!(got == e),
+                Err(()) => {
+                    // identity escape (single other character) or an input the tokenizer cannot produce
+                    if b.len() == 2 && b[0] == b'\\' {
+                        assert!(got.is_none() || got == Some(b[1] as u32));
+                    }
+                }
             }
         }
     }
